@@ -12,16 +12,16 @@ ID = "C06"
 RULE = ("G-sim traces (1-4 streams, touching kernels, zero-duration kernels, dropped launches = kernels without launch call, "
         "launch calls starting exactly when the previous kernel ends, 1-3 ranks) loaded through TraceAnalysis; "
         "get_idle_time_breakdown for rank subsets, stream subsets and thresholds drawn from {0, 1, an actual gap, gap+1, 30, 1e9} "
-        "so that gap == threshold and launch start == previous end occur; oracle = per-stream gaps between consecutive kernels of "
+        "so that gap == threshold and launch start == previous end occur, with and without show_idle_interval_stats (count / min / max / mean / median of the individual gaps per category); oracle = per-stream gaps between consecutive kernels of "
         "the documented categories, classified host_wait / kernel_wait / other, summed per category; totals = span - busy; ratios. "
         "Non-trivial: a stream with >= 3 kernels and >= 2 categories with positive idle time. Distinct = hash of files + cfg.")
 ASSUMPTIONS = ["well-formed regime; kernels of one stream do not overlap (G-sim) and have distinct starts", ">= 1 kernel on the rank after trimming",
                "kernel categories as documented: kernel, gpu_memset, gpu_memcpy"]
 PLAN = {"quick": {"shards": 16, "cases": 800, "timeout": 600}, "thorough": {"shards": 16, "cases": 8000, "timeout": 3000}}
 FLOORS = {"quick": {"distinct_nontrivial": 100, "streams_judged": 700, "gaps_host_wait": 500, "gaps_kernel_wait": 300, "gaps_other": 300,
-                    "gap_equals_threshold": 30, "launch_start_equals_prev_end": 20, "unlinked_kernels": 50},
+                    "gap_equals_threshold": 30, "launch_start_equals_prev_end": 20, "unlinked_kernels": 50, "stats_rows_judged": 500},
           "thorough": {"distinct_nontrivial": 2000, "streams_judged": 14000, "gaps_host_wait": 10000, "gaps_kernel_wait": 6000, "gaps_other": 6000,
-                       "gap_equals_threshold": 600, "launch_start_equals_prev_end": 400, "unlinked_kernels": 1000}}
+                       "gap_equals_threshold": 600, "launch_start_equals_prev_end": 400, "unlinked_kernels": 1000, "stats_rows_judged": 8000}}
 CATS = {"kernel", "Kernel", "gpu_memset", "Memset", "gpu_memcpy", "Memcpy", "mtia_ccp_events"}
 
 
@@ -33,6 +33,30 @@ def _streams(kept):  # noqa: ANN001
     for s in by:
         by[s].sort(key=lambda e: (e.ts, e.end, e.id))
     return by
+
+
+def _check_stats(res, stats, r, s, gaps_by) -> None:  # noqa: ANN001
+    """The optional statistics frame describes the individual idle intervals of each category (count, min, max, mean,
+    median): a finer observable of 'the idle intervals are exactly the gaps' than the per-category sums."""
+    sub = stats[(stats["rank"] == r) & (stats["stream"] == s)]
+    res.counters["stats_streams_judged"] += 1
+    for c, row in zip(sub.index.tolist(), sub.to_dict("records")):
+        g = sorted(gaps_by.get(c, []))
+        res.counters["stats_rows_judged"] += 1
+        if int(row["count"]) != len(g):
+            res.bad("interval-stats", f"rank {r} stream {s} {c}: {int(row['count'])} idle intervals reported, the stream has {len(g)} gaps of that category",
+                    rank=r, stream=s)
+            continue
+        if not g:
+            continue
+        med = (g[(len(g) - 1) // 2] + g[len(g) // 2]) / 2
+        exp = {"min": g[0], "max": g[-1], "mean": sum(g) / len(g), "50%": med}
+        wrong = {k: (float(row[k]), v) for k, v in exp.items() if abs(float(row[k]) - v) > 0.005 + 1e-9}
+        if wrong:
+            res.bad("interval-stats", f"rank {r} stream {s} {c}: interval statistics (reported, expected) {wrong}; gaps {g[:12]}", rank=r, stream=s)
+    missing = [c for c in gaps_by if gaps_by[c] and c not in sub.index.tolist()]
+    if missing:
+        res.bad("interval-stats", f"rank {r} stream {s}: no statistics row for categories {missing}")
 
 
 def gen_case(rnd, tier: str, i: Any) -> Dict[str, Any]:
@@ -47,7 +71,8 @@ def gen_case(rnd, tier: str, i: Any) -> Dict[str, Any]:
         gen_sim.drop_events(rnd, tr, p_launch=rnd.choice([0, 0, 0.15]), p_kernel=rnd.choice([0, 0, 0.1]))
         files[f"rank{r}.json"] = tr
     # thresholds are completed in run_case from the actual gaps (they depend on the loaded view)
-    return {"files": files, "cfg": {"rank_sel": rnd.random(), "stream_sel": rnd.random(), "thr_sel": rnd.random(), "thr_mode": rnd.choice(["gap", "gap", "gap+1", "0", "1", "30", "1e9"])}}
+    return {"files": files, "cfg": {"rank_sel": rnd.random(), "stream_sel": rnd.random(), "thr_sel": rnd.random(), "thr_mode": rnd.choice(["gap", "gap", "gap+1", "0", "1", "30", "1e9"]),
+                                    "stats": rnd.random() < 0.5}}
 
 
 def run_case(case: Dict[str, Any], ctx: Any) -> core.CaseResult:
@@ -88,11 +113,14 @@ def run_case(case: Dict[str, Any], ctx: Any) -> core.CaseResult:
         if not ok:
             return res
         ok, out = drv.guard(res, "get_idle_time_breakdown", ta.get_idle_time_breakdown, ranks=ranks, streams=streams, visualize=False,
-                            consecutive_kernel_delay=thr)
+                            consecutive_kernel_delay=thr, **({"show_idle_interval_stats": True} if cfg.get("stats") else {}))
         if not ok:
             res.violations[-1].witness.update(ranks=ranks, streams=streams, thr=thr)
             return res
         df = out[0]
+        stats = out[1] if cfg.get("stats") else None
+        if cfg.get("stats") and stats is None:
+            res.bad("interval-stats", "show_idle_interval_stats=True returned no statistics frame")
         nontrivial = False
         for r in ranks:
             kept = ld.kept[r]
@@ -104,6 +132,7 @@ def run_case(case: Dict[str, Any], ctx: Any) -> core.CaseResult:
                 res.counters["streams_judged"] += 1
                 exp = collections.Counter()
                 cats = collections.Counter()
+                gaps_by = collections.defaultdict(list)
                 for a, b in zip(ks, ks[1:]):
                     gap = b.ts - a.end
                     l = link.get(b.id, -1)
@@ -122,6 +151,7 @@ def run_case(case: Dict[str, Any], ctx: Any) -> core.CaseResult:
                         c = "other"
                     exp[c] += gap
                     cats[c] += 1
+                    gaps_by[c].append(gap)
                     res.counters[f"gaps_{c}"] += 1
                 sub = df[(df["rank"] == r) & (df["stream"] == s)]
                 got = {c: float(v) for c, v in zip(sub["idle_category"].tolist(), sub["idle_time"].tolist())}
@@ -133,6 +163,8 @@ def run_case(case: Dict[str, Any], ctx: Any) -> core.CaseResult:
                             f"{[(k.id, k.ts - ld.min_ts, k.end - ld.min_ts, (byid[link[k.id]].ts - ld.min_ts) if link.get(k.id, -1) > 0 and link[k.id] in byid else None) for k in ks][:10]} "
                             f"[(id, start, end, launch start)]", rank=r, stream=s, thr=thr, bad=str(bad),
                             unlinked=[k.id for k in ks if link.get(k.id, -1) == 0])
+                if stats is not None and not bad:
+                    _check_stats(res, stats, r, s, gaps_by)
                 total = sum(exp.values())
                 if ks:
                     span_busy = (ks[-1].end - ks[0].ts) - sum(k.dur for k in ks)
